@@ -91,8 +91,12 @@ def gen_scenario(r, allow_dups=True):
             continue
         names.append(nm)
     ign = [nm for nm in names if r.random() < 0.4]
-    conv = r.choices(["libtest", "custom", "dups"], [6, 2, 1 if allow_dups else 0])[0]
+    conv = r.choices(["libtest", "custom", "dups", "mixed"], [6, 2, 1 if allow_dups else 0, 2])[0]
     non_ignored = list(names) if conv != "custom" else [n for n in names if n not in ign]
+    if conv == "mixed":
+        # a harness whose `--list --ignored` output names some tests its plain `--list` output leaves out
+        # (the ignored listing is then not a sub-list of the full one)
+        non_ignored = [n for n in names if n not in ign or r.random() < 0.5]
     ignored = list(ign)
     if conv == "dups" and names:
         non_ignored.append(r.choice(names))
@@ -250,7 +254,11 @@ def run(tier, seed):
                       skips=[], kind="count", n=2),
                  # F21 witness (C13_count_sizes_per_binary_refuted): a, b(ignored), --run-ignored all
                  dict(names=["a", "b"], ign=["b"], conv="libtest", non_ignored=["a", "b"], ignored=["b"],
-                      ri="all", skips=[], kind="count", n=2)] + corpus()
+                      ri="all", skips=[], kind="count", n=2),
+                 # the ignored listing is not a sub-list of the plain listing: b_i is only named by --list --ignored
+                 dict(names=["a", "b_i", "c", "d_i", "e", "f_i", "g"], ign=["b_i", "d_i", "f_i"], conv="mixed",
+                      non_ignored=["a", "c", "d_i", "e", "f_i", "g"], ignored=["b_i", "d_i", "f_i"], ri="default",
+                      skips=[], kind="count", n=2)] + corpus()
     while len(scenarios) < (700 if thorough else 90):
         scenarios.append(gen_scenario(r))
     cases, index = [], []
